@@ -6,6 +6,8 @@ function). Kinds:
   panic:<macro>                                     diverging calls to core::panicking::* (unreachable!, assert!, panic!)
   unwrap / expect (Option::/Result::)               calls that panic on None / Err
   index / index_mut / copy_from_slice               slice operations that panic on bad bounds
+  foreign:<Type::fn>                                calls to std / dependency functions whose documentation has a
+                                                    `# Panics` section (table scanned from the library sources, panicdocs.py)
 """
 from collections import defaultdict
 
@@ -57,7 +59,76 @@ def classify_call(t):
         return "index_mut"
     if p == "<impl [T]>::copy_from_slice":
         return "copy_from_slice"
+    if not ce.get("resolved_local", ce.get("local")):
+        from .panicdocs import documented_panic
+        d = ce.get("resolved") or ce.get("def")
+        if d and documented_panic(d, p):
+            segs = [x for x in p.split("::") if not (x.startswith("<") and x.endswith(">") and "impl" not in x and " as " not in x)]
+            return "foreign:" + "::".join(_strip_generics(x) if not x.startswith("<") else x for x in segs[-2:])
     return None
+
+
+def _strip_generics(seg):
+    out, depth = [], 0
+    for c in seg:
+        if c == "<":
+            depth += 1
+        elif c == ">":
+            depth -= 1
+        elif depth == 0:
+            out.append(c)
+    r = "".join(out)
+    return r if r else seg
+
+
+# ------------------------------------------------------------------ documented panics of foreign callees
+
+OVERFLOW_ONLY = {"Iterator::count", "Iterator::last", "Iterator::position", "Iterator::rposition", "Iterator::enumerate",
+                 "Iterator::sum", "Iterator::nth"}
+HEADER_NAME_OK = set(b"abcdefghijklmnopqrstuvwxyz0123456789!#$%&'*+-.^_`|~")
+
+
+def _const_arg(t, i):
+    a = t["args"][i] if i < len(t["args"]) else None
+    if a is None or a.get("k") != "const":
+        return None
+    return a
+
+
+def foreign_discharge(prog, site):
+    """(ok, why) for a `foreign:` site: the documented panic condition is excluded by a constant argument,
+    or can only arise for iterators longer than usize::MAX"""
+    if not site.kind.startswith("foreign:"):
+        return False, "not a foreign site"
+    name = site.kind[len("foreign:"):]
+    t = site.term
+    ce = callee_of(t) or {}
+    trait_name = "::".join((ce.get("path") or "").split("::")[-2:])
+    if name in OVERFLOW_ONLY or trait_name in OVERFLOW_ONLY or name.split("::")[-1] in ("count", "last", "position") and "Iterator" in (ce.get("path") or ""):
+        return True, "documented panic only for more than usize::MAX elements; the receiver iterates an in-memory collection"
+    last = name.split("::")[-1]
+    if last in ("chunks", "chunks_exact", "windows", "rchunks", "step_by", "chunks_mut"):
+        a = _const_arg(t, 1)
+        if a is not None and "int" in a and int(a["int"]) != 0:
+            return True, "size argument is the non-zero constant %s" % a["int"]
+        return False, "size argument is not a non-zero constant"
+    if last == "from_str_radix":
+        a = _const_arg(t, 1)
+        if a is not None and "int" in a and 2 <= int(a["int"]) <= 36:
+            return True, "radix is the constant %s (within 2..=36)" % a["int"]
+        return False, "radix is not a constant in 2..=36"
+    if last == "from_static" and ("HeaderName" in name or "HeaderValue" in name):
+        a = _const_arg(t, 0)
+        by = bytes(a["bytes"]) if a is not None and "bytes" in a else None
+        if by is None:
+            return False, "argument is not a literal"
+        if "HeaderName" in name:
+            ok = len(by) > 0 and all(c in HEADER_NAME_OK for c in by)
+        else:
+            ok = all((32 <= c < 127) or c == 9 for c in by)
+        return (True, "literal %r is a valid static %s" % (by.decode("latin1"), "header name (lower-case token)" if "HeaderName" in name else "header value (visible ASCII)")) if ok \
+            else (False, "literal %r is not a valid static header %s" % (by.decode("latin1"), "name" if "HeaderName" in name else "value"))
+    return False, "no discharge rule for the documented panic of %s" % name
 
 
 def inventory(prog, bodies=None):
